@@ -19,6 +19,7 @@ import (
 	"net/url"
 	"strings"
 
+	chimiddleware "github.com/deepmap/oapi-codegen/pkg/chi-middleware"
 	"github.com/ethereum/go-ethereum/common"
 	"github.com/getkin/kin-openapi/openapi3"
 	"github.com/go-chi/chi/v5"
@@ -114,7 +115,15 @@ var envCounter int
 // NewEnv builds the real HTTP service on a fresh minipg keyper database that
 // holds two eons (one without, one with a failed DKG result) and one
 // decryption key.
-func NewEnv(writes bool) *Env {
+func NewEnv(writes bool) *Env { return newEnv(writes, nil) }
+
+// NewEnvWithSpec builds the same service, but assembles the API router in the
+// harness exactly as kprapi.setupAPIRouter does, with
+// kproapi.ConfigMiddlewareWithSpec reading the given document (used to vary the
+// x-read-only marks; the embedded document cannot be varied).
+func NewEnvWithSpec(writes bool, spec *openapi3.T) *Env { return newEnv(writes, spec) }
+
+func newEnv(writes bool, variant *openapi3.T) *Env {
 	ctx := context.Background()
 	envCounter++
 	pool, err := pgxpool.Connect(ctx, fmt.Sprintf("minipg://apix-%d", envCounter))
@@ -139,7 +148,21 @@ func NewEnv(writes bool) *Env {
 	p2p := &p2pStub{}
 	srv := kprapi.NewHTTPService(pool, config{writes}, p2p)
 	e := &Env{Writes: writes, Pool: pool, Srv: srv, P2P: p2p}
-	e.Router = srv.VerifRouter()
+	if variant == nil {
+		e.Router = srv.VerifRouter()
+	} else {
+		// the composition of kprapi.setupRouter/setupAPIRouter, with the middleware
+		// reading the given document variant instead of the embedded one
+		api := chi.NewRouter()
+		api.Use(chimiddleware.OapiRequestValidator(variant))
+		api.Use(kproapi.ConfigMiddlewareWithSpec(writes, func() (*openapi3.T, error) { return variant, nil }))
+		_ = kproapi.HandlerFromMux(srv, api)
+		outer := chi.NewRouter()
+		outer.Use(middleware.Logger)
+		outer.Use(middleware.Recoverer)
+		outer.Mount("/v1", http.StripPrefix("/v1", api))
+		e.Router = outer
+	}
 	e.shutdown = newReceiver[struct{}](srv.VerifShutdownSig())
 	e.trigger = newReceiver[*broker.Event[*epochkghandler.DecryptionTrigger]](srv.VerifTrigger())
 	e.baseDump = pool.DB().Dump()
@@ -317,6 +340,13 @@ func Spec() (*openapi3.T, []string, []Op) {
 	if err != nil {
 		panic(err)
 	}
+	spec.Servers = nil
+	t, ops := Ops(spec)
+	return spec, t, ops
+}
+
+// Ops lists templates and operations of a document.
+func Ops(spec *openapi3.T) ([]string, []Op) {
 	var templates []string
 	for t := range spec.Paths {
 		templates = append(templates, t)
@@ -334,7 +364,33 @@ func Spec() (*openapi3.T, []string, []Op) {
 			ops = append(ops, o)
 		}
 	}
-	return spec, templates, ops
+	return templates, ops
+}
+
+// MarkVariants are the ways the x-read-only extension of one operation is varied.
+var MarkVariants = []string{"absent", "false (raw JSON)", "true (raw JSON)", "false (bool)", "true (bool)"}
+
+// Variant returns a fresh copy of the embedded document in which the
+// x-read-only mark of the given operation is set as described.
+func Variant(template, method string, mark int) *openapi3.T {
+	spec, _, _ := Spec()
+	op := spec.Paths[template].GetOperation(method)
+	if op.Extensions == nil {
+		op.Extensions = map[string]interface{}{}
+	}
+	switch mark {
+	case 0:
+		delete(op.Extensions, "x-read-only")
+	case 1:
+		op.Extensions["x-read-only"] = json.RawMessage("false")
+	case 2:
+		op.Extensions["x-read-only"] = json.RawMessage("true")
+	case 3:
+		op.Extensions["x-read-only"] = false
+	case 4:
+		op.Extensions["x-read-only"] = true
+	}
+	return spec
 }
 
 func sortStrings(s []string) {
